@@ -3,11 +3,11 @@ import VtlModel.Sem.ExtCodec
 line, one answer per line; requests of `Drivers/Sem.lean` are answered too. -/
 open VtlModel.Sem
 
-partial def loopX (h : IO.FS.Stream) (out : IO.FS.Stream) : IO Unit := do
+partial def loopC01X (h : IO.FS.Stream) (out : IO.FS.Stream) : IO Unit := do
   let line ← h.getLine
   if line.isEmpty then return ()
-  out.putStrLn (handleLineX line)
-  loopX h out
+  out.putStrLn (handleLineC01X line)
+  loopC01X h out
 
 def main : IO Unit := do
-  loopX (← IO.getStdin) (← IO.getStdout)
+  loopC01X (← IO.getStdin) (← IO.getStdout)
